@@ -148,3 +148,40 @@ def exact_type_choice_lookup(ctx: Ctx) -> None:
     bt = ctx.repo.func(f"{PAR}:DictDecoder.bind_text")
     ctx.ob("DictDecoder.bind_text resolves compound fields through find_value_choice(value, is_model(value))", A("_=self.context.class_type.is_model(_);_=_.find_value_choice(_,_)") in asrc(bt), at=bt, construct="decoder choice lookup",
            msg="compound values decoded against another choice than the one the encoder used")
+
+
+share("C03", "C03.R12", exact_type_choice_lookup)  # which element name / xsi:type marker a compound value is written with
+
+
+@rule("C04.R7")
+def nillable_choice_only_for_none_or_empty_tokens(ctx: Ctx) -> None:
+    """find_value_choice sends a value to the nillable-choice lookup only if it is None, or an empty token list - never because it is merely falsy."""
+    fv = ctx.repo.func(f"{EL}:XmlVar.find_value_choice")
+    g = build_cfg(fv.node)
+    nil = [n for n in g.stmts() if any(unparse(c.func) == "self.find_nillable_choice" for c in node_calls(n))]
+    none_t = [t for t in g.nodes if t.kind == "test" and A(unparse(t.ast)) == A("value is None")]
+    tok_t = [t for t in g.nodes if t.kind == "test" and unparse(t.ast) == "is_tokens"]
+    ok = len(nil) == 1 and len(none_t) == 1 and bool(tok_t)
+    if ok:
+        blocked = [(none_t[0].id, m, lab) for m, lab in g.succ[none_t[0].id] if lab == "true"] + [(t.id, m, lab) for t in tok_t for m, lab in g.succ[t.id] if lab == "true"]
+        ok = nil[0].id not in g.reachable([g.entry], blocked_edges=blocked)
+    ctx.ob("find_value_choice: the nillable lookup is unreachable for a value that is neither None nor a token list", ok, at=fv, construct="nillable dispatch",
+           msg="falsy primitives (0, 0.0, False, '') are sent to the nillable choice: JSON 0 in a compound field fails to bind or is bound to another choice")
+    tk = [st for st, tgt, v in stores(fv.node) if unparse(tgt) == "is_tokens"]
+    ctx.ob("is_tokens = collections.is_array(value)", len(tk) == 1 and A(unparse(tk[0].value)) == A("collections.is_array(value)"), at=fv, construct="is_tokens", msg="token test changed")
+
+
+@rule("C04.R8")
+def derived_type_entry_takes_precedence(ctx: Ctx) -> None:
+    """bind_derived_value honours the derived element's explicit `type` entry before guessing the class structurally from the field's class."""
+    fi = ctx.repo.func(f"{PAR}:DictDecoder.bind_derived_value")
+    g = build_cfg(fi.node)
+    xt = [t for t in g.nodes if t.kind == "test" and unparse(t.ast) == "xsi_type"]
+    guess = [n for n in g.stmts() if any(unparse(c.func) in ("self.bind_complex_type", "self.bind_best_dataclass") for c in node_calls(n))]
+    exact = [n for n in g.stmts() if any(unparse(c.func) == "self.context.find_type" for c in node_calls(n))]
+    ok = len(xt) == 1 and bool(guess) and bool(exact) and all(g.only_if(n.id, xt[0].id, False) for n in guess) and all(g.only_if(n.id, xt[0].id, True) for n in exact)
+    ctx.ob("bind_derived_value: structural guessing (bind_complex_type / bind_best_dataclass) happens only when the derived element carries no type", ok, at=fi, construct="derived type precedence",
+           msg="the explicit type of a DerivedElement is ignored when the field has a model class: a sibling class with a compatible key set wins and the decoded object is unequal")
+    nd = [t for t in g.nodes if t.kind == "test" and A(unparse(t.ast)) == A("isinstance(params, dict)")]
+    txt = [n for n in g.stmts() if any(unparse(c.func) == "self.bind_text" for c in node_calls(n))]
+    ctx.ob("bind_derived_value: non-dict values are bound as text before any class lookup", len(nd) == 1 and bool(txt) and all(g.only_if(n.id, nd[0].id, False) for n in txt), at=fi, construct="derived text first", msg="dispatch order changed")
